@@ -28,7 +28,7 @@ theorem OutSim.toRel {a : Out K V (Cache K V)} {b : Out K V (Ref K V)} (h : OutS
   | nat n => exact OutRel.nat n
   | items l => exact OutRel.items l
 
-theorem Sim.mach : MSim (Cache.mach (K := K) (V := V)) Ref.mach RSim where
+theorem Sim.mach : MSim (Cache.mach (K := K) (V := V)) Ref.mach RSim (RSim 0) where
   weaken := fun h => ⟨h.1, by have := h.2; omega⟩
   find := fun {n c s} k h => by
     show (lookup k c.ring).isSome = (lookup k s.ents).isSome
@@ -77,7 +77,7 @@ theorem HSim.find_eq {h : HCache K V} {c : Cache K V} (hs : HSim h c) (k : K) :
   rw [hrep.tbl, ← hring, lookup_ringOf]
   cases lookup k cells <;> rfl
 
-theorem HSim.mach : MSim (HCache.mach (K := K) (V := V)) Cache.mach RHSim where
+theorem HSim.mach : MSim (HCache.mach (K := K) (V := V)) Cache.mach RHSim (RHSim 0) where
   weaken := fun h => ⟨h.1, by have := h.2; omega⟩
   find := fun {n h c} k hs => hs.1.find_eq k
   hit := fun {n h c} k hs hf => by
